@@ -53,7 +53,15 @@ package service
 // C09: a delivered message owns its bytes: nothing the parser writes later (the caller's read buffer, the
 // pending-bytes buffer up to its capacity) overlaps the raw frame, the body or the BCD phone of a returned message.
 // ---------------------------------------------------------------------------------------------
+// C04 (per call): every returned message carries exactly one frame - its raw bytes start and end with the delimiter and
+// have none in between - and when unpack returns without error no complete frame is left at the head of the pending bytes.
+//@ spec oneframe(d []byte) bool = len(d) >= 2 && d[0] == 0x7e && d[len(d)-1] == 0x7e && forall(k, 1, len(d)-1, d[k] != 0x7e)
+//@ spec nocomplete(h []byte) bool = !(len(h) > 2 && h[0] == 0x7e && exists(k, 1, len(h), h[k] == 0x7e))
 //@ func (*packageParse).unpack
+//@   ensures C04.one: forall(j, 0, len(msgs), oneframe(msgs[j].ExtensionFields.TerminalData))
+//@   ensures C04.rest: err == nil ==> nocomplete(p.historyData)
+//@   loop 1 invariant C04.one: forall(j, 0, len(msgs), oneframe(msgs[j].ExtensionFields.TerminalData))
+//@   loop 2 invariant C04.scan: 1 <= i && forall(k, 1, i, p.historyData[k] != 0x7e) && end == 0 - 1
 //@   ensures valid: forall(j, 0, len(msgs), vmsg(msgs[j]))
 //@   ensures msgsfresh: msgs == nil || fresh(msgs)
 //@   loop 1 invariant valid: forall(j, 0, len(msgs), vmsg(msgs[j]))
